@@ -794,7 +794,7 @@ Proof. intros T N. apply grid_alg_abs_blind_keyed. Qed.
    PARTIAL (renamed by the audit of wave 7b): absolute nodes must KEEP their grid lines (the text: "with any ... grid-placement styles ...");
    the stored layout of the absolute node itself and everything below it is unconstrained (asim_abs); content_size is ignored; both
    evaluations are premises (`= Some`: no totality lemma for real_algo); ONE memoised query -- the runner evaluates
-   taffy_compute_root (root input from the root style, root layout stored) over SEVERAL passes: that composition is not stated; where the
+   taffy_compute_root (root input from the root style, root layout stored) over SEVERAL passes: C06_taffy_layout_pass(es)_partial at the end of this file; where the
    Rust code panics the grid branch is the stand-in of Model/GridAlgTotal.v (both sides then are the same resumption by construction).
    Computed instance: C06_taffy_engine_example. *)
 Theorem C06_taffy_engine_instance_partial :
